@@ -130,6 +130,14 @@ Theorem C13_repair_complete :
 Proof. exact repair_complete. Qed.
 Print Assumptions C13_repair_complete.
 
+(** ... and the linear part of the repair never tries a decrement at or beyond
+    MaxACMPolicyLinearDistance, for every number of goroutines (false before the
+    repair 92fa0d4 in /repo, finding C03-D21). *)
+Theorem C13_repair_linear_inside_limit :
+  forall P limit d, In d (lin_cands P limit) -> 0 <= d < limit.
+Proof. exact lin_cands_below_limit. Qed.
+Print Assumptions C13_repair_linear_inside_limit.
+
 (** ** Identical log *)
 
 (** A recorded log whose PCR0 events of the bank agree pairwise (type and digest) with the
